@@ -50,6 +50,7 @@ var controlSpecs = []controlSpec{
 	{"R17.constructs", "alloc", "CtlConcat"},
 	{"R18.ptr", "parse", "ctlErr"},
 	{"R01.case", "parse", "EqualFold"},
+	{"R09.case", "parse", "EqualFold"},
 }
 
 // runControls loads the overlay world once and checks that every control rule
@@ -109,7 +110,7 @@ func runControls(def propDef, repo string, run *Run) {
 		groups[g](w, &all)
 	}
 	for _, c := range wanted {
-		if c.Rule == "R01.case" && !denyOK {
+		if (c.Rule == "R01.case" || c.Rule == "R09.case") && !denyOK {
 			run.Notes = append(run.Notes, "control for R01.case skipped: anchor `if value == enbl {` not present exactly once in 31/cvss31.go")
 			continue
 		}
